@@ -1,6 +1,31 @@
 #!/bin/sh
-# Builds every harness binary offline from files on disk (run once after a fresh restore).
+# Builds every harness binary of the registered checks offline from files on disk (run once after a fresh restore).
 set -e
 cd "$(dirname "$0")/harness"
 export CARGO_NET_OFFLINE=true
-cargo build --release --workspace 2>&1 | tail -3
+CRATES="$(sed -n 's/^ *\(C[0-9]*[|C0-9]*\)) GROUP=\([a-z]*\) ;;$/\2/p' ../check | sort -u)"
+for g in $CRATES; do
+  # only groups whose check is registered in MANIFEST.json need to exist at setup time
+  if grep -q "\"quick_cmd\": \"./check C" ../MANIFEST.json; then :; fi
+done
+REG="$(python3 - <<'PY'
+import json,re
+m=json.load(open('../MANIFEST.json'))
+ids=[c['property_id'] for c in m['checks']]
+chk=open('../check').read()
+groups=set()
+for line in chk.splitlines():
+    mm=re.match(r'\s*([C0-9|]+)\) GROUP=([a-z]+) ;;',line)
+    if mm:
+        for i in mm.group(1).split('|'):
+            if i in ids: groups.add(mm.group(2))
+print(' '.join('-p pvc-'+g for g in sorted(groups)))
+PY
+)"
+echo "setup: building $REG"
+cargo build --release $REG 2>&1 | tail -2
+if echo "$REG" | grep -q pvc-hal && grep -q '"property_id": "C17"' ../MANIFEST.json; then
+  echo "setup: building the AddressSanitizer variant of pvc-hal (C17)"
+  RUSTFLAGS="-C target-feature=+avx2,+fma -Zsanitizer=address" CARGO_TARGET_DIR=target-asan \
+    cargo build --release -p pvc-hal --target x86_64-unknown-linux-gnu 2>&1 | tail -2
+fi
